@@ -20,6 +20,11 @@
                                             explicit client precondition `transferClientOk`; shown necessary)
     w6_transfer_wakes_owner                 transfer_lock wakes ≤ 1 thread, with Completed, and it is the new
                                             owner thread or a thread the new owner waits for
+    w6_no_dependents_without_owner          (runC) with transfers: dependents ⇒ sync entry with anyone_waiting;
+                                            no sync entry ⇒ no dependents; stale `Transferred` ⇒ no dependents
+    w3_handback_wakes_waiters               (runC) `release_self` of a re-claimed transferred key (salsa 451fce7)
+                                            leaves NO dependents on it: all get `Completed`, none keeps an edge
+                                            to the releasing thread
     c19_depends_on_decides                  depends_on terminates and decides reachability
     c19_cycle_reported, c19_block_only_if_acyclic, c19_claim_enabled   (keys owned by a thread)
   PROVED FOR THE PROTOCOL WITHOUT `transfer` (`basicOps`; no key is ever `Transferred`)
@@ -28,16 +33,19 @@
 
   NOT YET PROVED (nothing below is claimed; the decidable forms of W1, W2, W4, W5 are evaluated by the
   trace driver on every replayed state instead)
-    * w3_points_at_owner (full): `t ∈ qdeps k → edges t = resolvedOwner k` with transfers.  The right
-      statement is not settled: while a transferred key is re-claimed (`claimed_twice`) its sync entry
-      says `Thread(me)` but older dependents still point at the chain's resolved owner, so a
-      single-valued `resolvedOwner` is wrong; needs an invariant tying sync table, `transferred` chains
-      (with stale thread fields) and edges together.
-    * w6_no_lost_wakeup (full): `sync k` absent or stale-`Transferred` ⇒ `qdeps k = []`, and release of a
-      transfer target delivers the result to the dependents of every key transitively transferred to it.
-      Needs the W3 invariant above (that every dependent of a transferred key is reached by
-      `unblock_recursive` from the root), plus `is_transfer_target` being set on every key with
-      `tdeps ≠ []`.
+    * w3_points_at_owner (full): `t ∈ qdeps k → edges t = owner of k`, where the owner of a `Transferred`
+      key is `threadIdOfTransferredQuery k` and, while a transferred key is re-claimed (`claimed_twice`),
+      older dependents may still point at the chain's resolved owner.  The decidable form is `checkW3`
+      (Model/SyncDG.lean); the trace driver evaluates it after every replayed graph operation: it held on
+      all ≈ 75 000 graph lines of 3 360 recorded traces except exactly the recorded deadlock case of the
+      pre-451fce7 `release_self` (corpus/DG/kf-stale-edge-prefix.ops), which it flags.  A proof needs an
+      invariant tying sync table, `transferred` chains (with stale thread fields), the edge re-pointing
+      of `update_transferred_edges` and the client `debug_assert`s of `transfer_lock` together; only the
+      hand-back part is proved (`w3_handback_wakes_waiters`).
+    * w6_no_lost_wakeup (full), delivery part: release of a transfer target delivers the result `r` to the
+      dependents of every key transitively transferred to it.  Proved: those keys end with an empty
+      dependents list (`w6_no_dependents_without_owner`) and every thread that left a list lost its edge
+      and became ready (W1 + `w5_exactly_once`); not proved: that the result it received is `r`.
     * c19_cycle_reported for `Transferred` keys (answer `Cycle{inner}` / re-entrant `Claimed`, never an edge).
     * enabledness (no assert fires, loops terminate) of release/transfer in the presence of transfers:
       needs W4 + a key bound for the `transferred` walks (`resolveLoop`, `repointLoop`,
@@ -48,6 +56,7 @@
       graph-level theorems do cover the interleavings).
 -/
 import SalsaVerif.Proofs.SyncDGReach
+import SalsaVerif.Proofs.SyncDGWaiters2
 
 namespace SalsaVerif.Props.C19
 open SalsaVerif.Model.SyncDG SalsaVerif.Proofs.SyncDG
@@ -261,6 +270,51 @@ theorem w6_transfer_wakes_owner (s s' : State) (q c n nt : Nat) (o : SyncOwner) 
 example : ((run init (transferOps.take 4)).bind fun s =>
     (transferLockCore s 1 0 2 (.thread 1)).map fun r => (r.2.2, status s 1, status r.1 1, r.1.results 1)) =
     some (1, .blocked, .ready, some .completed) := by decide
+
+/-! ### W6 / W3 with transfers (runs satisfying the client precondition, `runC`) -/
+
+/-- W6, state part, WITH transfers: (a) a key with dependents has a sync entry whose `anyone_waiting`
+    flag is set — so `release` never skips its wake-ups; (b) a key without sync entry has no dependents;
+    (c) a key left in the `Transferred` state whose `transferred` entry is gone (its owner released it:
+    the "stale Transferred" state that the next `try_claim` overwrites) has no dependents. -/
+theorem w6_no_dependents_without_owner (ops : List Op) (s : State) (h : runC init ops = some s) :
+    (∀ k, s.qdeps k ≠ [] → ∃ st, s.sync k = some st ∧ st.anyoneWaiting = true) ∧
+    (∀ k, s.sync k = none → s.qdeps k = []) ∧
+    (∀ k st, s.sync k = some st → st.owner = .transferred → s.transferred k = none → s.qdeps k = []) := by
+  have hq := runC_qinv ops init s GInv_init Forest_init QInv_init h
+  exact ⟨hq.aw, fun k hk => hq.sync_none hk, hq.stale⟩
+
+/-- W3, hand-back part (salsa 451fce7): when thread `t` gives a re-claimed transferred key `k`
+    (`claimed_twice`) back to its transfer target (`release_self`), the key is `Transferred` again and
+    has NO dependents afterwards: every thread that was waiting on it — in particular every thread
+    whose edge pointed at `t` — has received `Completed` and lost its edge, so no stale edge to the
+    releasing thread survives (the cause of the deadlock recorded in corpus/C18). -/
+theorem w3_handback_wakes_waiters (ops : List Op) (s : State) (h : runC init ops = some s)
+    (t k : Nat) (st : SyncState) (hk : s.sync k = some st) (hct : st.claimedTwice = true) (s' : State)
+    (hs : step s (.releaseSelf t k) = some s') :
+    s'.qdeps k = [] ∧
+    (∃ st', s'.sync k = some st' ∧ st'.owner = .transferred ∧ st'.anyoneWaiting = false) ∧
+    (∀ u, u ∈ s.qdeps k → s'.results u = some .completed ∧ s'.edges u = none) ∧
+    (∀ k' u, u ∈ s'.qdeps k' → s'.edges u = some t → k' ≠ k) := by
+  have hq := runC_qinv ops init s GInv_init Forest_init QInv_init h
+  have hg := reach_full (runC_run ops init s h)
+  obtain ⟨h1, h2, h3⟩ := releaseSelf_handback (s0 := touch (touch s t) k)
+    (GInv_touch k (GInv_touch t hg)) (hq.congr rfl rfl rfl) hk hct (step_releaseSelf hs)
+  refine ⟨h1, ⟨_, h2, rfl, rfl⟩, h3, ?_⟩
+  intro k' u hu _ hkk
+  subst hkk
+  rw [h1] at hu; simp at hu
+
+-- t2 blocks on the re-claimed key k1 (edge t2 → t1); the hand-back by t1 wakes it
+example : ((runC init (transferOps.take 7 ++ [.claim 2 1 true true])).map fun s =>
+      (s.edges 2, s.qdeps 1, (s.sync 1).map (·.claimedTwice))) = some (some 1, [2], some true) ∧
+    ((runC init (transferOps.take 7 ++ [.claim 2 1 true true, .releaseSelf 1 1])).map fun s =>
+      (s.edges 2, s.results 2, s.qdeps 1, (s.sync 1).map (·.owner), checkW3 s [])) =
+      some (none, some .completed, [], some .transferred, true) := by decide
+-- after the owner released the transfer target, the transferred key k1 is stale and has no dependents
+example : ((runC init (transferOps.take 10)).map fun s =>
+    ((s.sync 1).map (·.owner), s.transferred 1, s.qdeps 1)) = some (some .transferred, none, []) := by
+  decide
 
 /-! ### c19_cycle_reported — a claim that would close a wait cycle is answered `Cycle`, no edge added -/
 
